@@ -168,7 +168,7 @@ func mkContribs(size int) []*altair.SignedContributionAndProof {
 
 func mkProposal() *api.VersionedSignedProposal {
 	return &api.VersionedSignedProposal{Version: spec.DataVersionBellatrix, Bellatrix: &bellatrix.SignedBeaconBlock{Message: &bellatrix.BeaconBlock{Slot: c07Slot,
-		Body: &bellatrix.BeaconBlockBody{ETH1Data: &phase0.ETH1Data{}, SyncAggregate: &altair.SyncAggregate{SyncCommitteeBits: bitfield.NewBitvector512()},
+		Body: &bellatrix.BeaconBlockBody{ETH1Data: &phase0.ETH1Data{BlockHash: make([]byte, 32)}, SyncAggregate: &altair.SyncAggregate{SyncCommitteeBits: bitfield.NewBitvector512()},
 			ExecutionPayload: &bellatrix.ExecutionPayload{}}}}}
 }
 
